@@ -379,6 +379,7 @@ func c19PubSub(r *R) {
 		r.Count("history-too-long-for-porcupine")
 	}
 	// 5. no table entry for a terminated subscriber
+	vsimrt.Fence()
 	byType, bySub := actor.VsimEventStreamTables(sysI)
 	for s := range killedStep {
 		p := fmt.Sprintf("/subs/s%d", s)
